@@ -63,7 +63,8 @@ def shard(tier, seed, shard, nshards):
     for i in range(N[tier] // nshards):
         spec, rnd = mcommon.gen_item(ID, seed, shard, i)
         run_one(st, spec, C.make_case(spec, rnd, lo=2, hi=4, mode="metrics",
-                                      density=rnd.choice([0.8, 1.0])))
+                                      density=rnd.choice([0.8, 1.0]),
+                                      extents=getattr(spec, "_extents", None)))
     import os
     st.bump("hashseeds", os.environ.get("PYTHONHASHSEED", "?"))
     return st.result()
